@@ -2,6 +2,7 @@ import SJ.Properties.C14
 import SJ.Proofs.SourceLevelB
 import SJ.Proofs.SourceLevelC
 import SJ.Proofs.SourceLevelD
+import SJ.Proofs.SourceLevelF
 set_option linter.unusedVariables false
 /-
 C14 — source level. The theorems of Properties/C14.lean composed with the source ties of DESIGN §6.3: each statement
@@ -182,5 +183,179 @@ theorem C14_source_history_readback (ops : List DOp) (pj : PJ) (v : LVal) (hok :
       ∃ st, runFun goFuns goIter_MarshalJSONBuffer F ⟨initEnv pj' (iterOn pj' v.pos) dst, pj'.tape⟩ =
           .ret st [.bytes (dst ++ renderJ (erase (absDOps v ops))), .bool false] ∧ st.tape = pj'.tape :=
   SJ.SourceLevelD.C14_source_history_readback ops pj v hok ht hv hfl hb hsz fuel hf dst F hF
+
+open SJ.Generated SJ.GoSem SJ.GoIter SJ.GoSet SJ.Layout SJ.SourceLevelF SJ.GoObject SJ.WalkLayout in
+/-- **`NextElementBytes` does not misread a gap, source level** (`C14_gap_skipped_neb` ∘ the `NextElementBytes` tie
+    `GoObject.nextElementBytes_sim`, the fifth clause of `C12_object_walk_follows_source`).  `[a, b)` is a gap of the tape (NOP
+    words whose skip counts stay inside) ending inside the view `lim`.  Running `Object.NextElementBytes` of
+    `parsed_object.go` (as printed from /repo, with its recursion over NOP words) on the receiver `{off = a, lim}` gives the
+    caller exactly what running it on the receiver placed at the END of the gap, `{off = b, lim}`, gives: both runs return
+    (neither panics, diverges or is stuck), with the same name bytes, the same `Type` and the same error; both leave the tape
+    alone; and when the error is `nil` they leave the same receiver and the same `*dst` (`SameNE`).  `*dst` may hold anything
+    before the call (`d0`).
+    Discharged: the model fuels of the two runs (`C14_gap_skipped_neb` spends `k ≤ b − a` units on the gap: the run from `a`
+    gets `lim − a + 1`, the run from `b` what is left, which is at least `lim − b + 1`), absence of panic
+    (`nextElementBytes_safe`).  Remaining, all of the tie: `BufOK pj` (buffer lengths are Go `int`s — the key is read through
+    `stringByteAt`), `lim ≤ len(tape)` (the view is a prefix of the tape), the interpreter's budget `lim − a + 1` (the depth
+    of the recursion), the same for both runs. -/
+theorem C14_source_gap_skipped_neb (pj : PJ) (hbuf : BufOK pj) (lim : Nat) {a b : Nat} (g : Gap pj a b) (hb : b ≤ lim)
+    (hl : lim ≤ pj.tape.size) (d0 : Iter) (fuel : Nat) (hf : lim - a + 1 ≤ fuel) :
+    SameNE (runFun goFuns goObject_NextElementBytes fuel ⟨neEnv { lim := lim, off := a } d0 pj, pj.tape⟩)
+      (runFun goFuns goObject_NextElementBytes fuel ⟨neEnv { lim := lim, off := b } d0 pj, pj.tape⟩) :=
+  SJ.SourceLevelF.C14_source_gap_skipped_neb pj hbuf lim g hb hl d0 fuel hf
+
+open SJ.Generated SJ.GoSem SJ.GoIter SJ.GoSet SJ.Layout SJ.SourceLevelF SJ.GoObject SJ.WalkLayout in
+/-- **… and neither does `Object.NextElement`** (the same composition with `GoApi.nextElement_sim`, the `NextElement` clause of
+    `C12_api_follows_source`: `NextElement` calls `NextElementBytes` and converts the name).  One more unit of interpreter
+    fuel for the call. -/
+theorem C14_source_gap_skipped_ne (pj : PJ) (hbuf : BufOK pj) (lim : Nat) {a b : Nat} (g : Gap pj a b) (hb : b ≤ lim)
+    (hl : lim ≤ pj.tape.size) (d0 : Iter) (fuel : Nat) (hf : lim - a + 2 ≤ fuel) :
+    SameNE (runFun goFuns goObject_NextElement fuel ⟨neEnv { lim := lim, off := a } d0 pj, pj.tape⟩)
+      (runFun goFuns goObject_NextElement fuel ⟨neEnv { lim := lim, off := b } d0 pj, pj.tape⟩) :=
+  SJ.SourceLevelF.C14_source_gap_skipped_ne pj hbuf lim g hb hl d0 fuel hf
+
+open SJ.Generated SJ.GoSem SJ.GoIter SJ.GoSet SJ.Layout SJ.SourceLevelF SJ.Tables SJ.WalkLayout SJ.Lookup SJ.DeleteDoc SJ.MarshalExact SJ.RenderParse SJ.Numeric SJ.EditHistory SJ.GoObject SJ.GoMarshal SJ.GoArrMarshal SJ.GoDelete SJ.SourceLevelB SJ.SourceLevelE in
+/-- **`SetNull` on a container, then read back, source level** (the source-level counterpart of `C14_setNull_then_read`).  On a
+    tape holding the located document `v` with the receiver on the object or array node `[q, e)`: running the regenerated
+    `goIter_SetNull` returns `nil`, and on the tape it leaves (the node is now `null` followed by a gap of NOP words up to
+    `e`), from ANY iterator `j` standing on the document whose view lies inside the tape — e.g. `iterOn` at the document's
+    first word — the regenerated `Iter.MarshalJSONBuffer` returns `dst ++` the canonical text of `v` with exactly that
+    container replaced by `null`, and `nil`: no member of the nulled container is resurrected, nothing after it is skipped.
+    Reader and `Tight` as in `C13_source_setInt_then_read` (`owalkValue` has no tie; the marshaller skips gaps everywhere).
+    Route: `C14_setNull_container` ∘ `SetNull` tie (`C14_source_setNull_container`), `C10_marshal_exact` ∘ marshal tie.
+    Remaining: `hl`, `FloatsOk v`, `BufOK pj`, `j.lim ≤ len(tape)`, fuel `e − q + 1` for the fill loop and the marshaller's
+    budget. -/
+theorem C14_source_setNull_then_read (pj : PJ) (v : LVal) (hok : Ok pj v) (q e : Nat) (hnode : HasNode q e v)
+    (hqe : q + 2 ≤ e) (hsmall : pj.tape.size < 2^56) (i : Iter) (hoff : i.off = q + 1) (hcur : i.cur.toNat = e)
+    (hview : i.cur.toNat ≤ i.lim) (hl : i.lim ≤ pj.tape.size)
+    (ht0 : inCase (caseOf swSetNull 0) i.t = false) (ht1 : inCase (caseOf swSetNull 1) i.t = false)
+    (ht : inCase (caseOf swSetNull 2) i.t = true) (fuel : Nat) (hf : e - q + 1 ≤ fuel) (hfl : FloatsOk v) (hb : BufOK pj) :
+    ∃ s, runFun goFuns goIter_SetNull fuel
+        { env := envOf "i" i ++ [("Strings.B", .bytes pj.strings)], tape := pj.tape } = .ret s [.bool false] ∧
+      s.env.get "Strings.B" = some (.bytes pj.strings) ∧ s.tape.size = pj.tape.size ∧
+      Ok { tape := s.tape, strings := pj.strings, msg := pj.msg } (substV q (.null q) v) ∧
+      (∀ (j : Iter) (dst : Bytes) (F : Nat),
+        OnNode { tape := s.tape, strings := pj.strings, msg := pj.msg } (substV q (.null q) v) j →
+        j.lim ≤ s.tape.size → 2 * s.tape.size + j.lim + 25 ≤ F →
+        ∃ st, runFun goFuns goIter_MarshalJSONBuffer F
+            ⟨initEnv { tape := s.tape, strings := pj.strings, msg := pj.msg } j dst, s.tape⟩ =
+          .ret st [.bytes (dst ++ renderJ (erase (substV q (.null q) v))), .bool false] ∧ st.tape = s.tape) ∧
+      OnNode { tape := s.tape, strings := pj.strings, msg := pj.msg } (substV q (.null q) v)
+        (iterOn { tape := s.tape, strings := pj.strings, msg := pj.msg } v.pos) :=
+  SJ.SourceLevelF.C14_source_setNull_then_read pj v hok q e hnode hqe hsmall i hoff hcur hview hl ht0 ht1 ht fuel hf hfl hb
+
+open SJ.Generated SJ.GoSem SJ.GoIter SJ.GoSet SJ.Layout SJ.SourceLevelF SJ.Tables SJ.WalkLayout SJ.Lookup SJ.DeleteDoc SJ.MarshalExact SJ.RenderParse SJ.Numeric SJ.EditHistory SJ.GoObject SJ.GoMarshal SJ.GoArrMarshal SJ.GoDelete SJ.SourceLevelB SJ.SourceLevelE in
+/-- **`Array.DeleteElems`, then read back, source level** (array half of `C14_delete_then_read`).  On a tape holding the located
+    array `.arr p e es`, with the callback answers `q` queued: running the regenerated `goArray_DeleteElems` on the array's
+    view returns, and on the tape it leaves (`es'` = the elements for which deletion was not requested, `filterVs q 0 es`):
+    * the tape holds the array `es'`, at the old positions;
+    * **Advance-based walk**: running the regenerated `Array.ForEach` on the same view makes exactly one callback per
+      SURVIVOR, in order, each with an iterator standing on it (`Stands` on the new tape) — no deleted element is visited, no
+      survivor skipped (`C12_source_arrForEach` on the new tape; `Array.ForEach` is the `Advance` loop, the source-side
+      counterpart of the property's `owalkArr`, which has no tie);
+    * **text**: given `FloatsOk` and `BufOK`, the regenerated `Array.MarshalJSONBuffer` on that view returns `dst ++` the
+      canonical text of the array of survivors, and `nil`.
+    `TightVs es` of the property is not needed: both readers skip NOP words everywhere.
+    Route: `C14_array_delete` ∘ `DeleteElems` tie (`C14_source_array_delete`, with the array as the whole document), then the
+    `ForEach` and `Array.MarshalJSONBuffer` compositions on the resulting tape.
+    Remaining: `len(tape) < 2^56` and `N ≥ e − (p+1)` queued answers (of the deletion), the three loop budgets, and for the
+    text `FloatsOk`/`BufOK`. -/
+theorem C14_source_delete_then_read_arr (pj : PJ) (p e : Nat) (es : LVals) (q : Nat → Bool) (hok : Ok pj (.arr p e es))
+    (hsmall : pj.tape.size < 2^56) (N : Nat) (hN : e - (p + 1) ≤ N) (fuel : Nat) (hf : 2 * e + 7 ≤ fuel) :
+    ∃ s, runFun goFuns goArray_DeleteElems fuel
+        ⟨arrStore pj { lim := e, off := p + 1 } [("fn.results", .bools (answers N q)), ("fn.log", .ints [])], pj.tape⟩ =
+          .ret s [] ∧
+      s.tape.size = pj.tape.size ∧
+      Ok { tape := s.tape, strings := pj.strings, msg := pj.msg } (.arr p e (filterVs q 0 es)) ∧
+      (∀ F, 2 * e + 6 ≤ F →
+        ∃ s' its, runFun goFuns goArray_ForEach F
+            ⟨arrStore { tape := s.tape, strings := pj.strings, msg := pj.msg } { lim := e, off := p + 1 }
+              [("fn.log", .ints [])], s.tape⟩ = .ret s' [] ∧
+          s'.tape = s.tape ∧ GoDelete.logOf s'.env = GoDelete.encIters its ∧ its.size = lenVs (filterVs q 0 es) ∧
+          Stands { tape := s.tape, strings := pj.strings, msg := pj.msg } e (filterVs q 0 es) its.toList) ∧
+      (FloatsOk (.arr p e es) → BufOK pj → ∀ (dst : Bytes) (F : Nat), 4 * s.tape.size + e + 42 ≤ F →
+        ∃ st, runFun goFuns goArray_MarshalJSONBuffer F
+            ⟨arrEnv { tape := s.tape, strings := pj.strings, msg := pj.msg } { lim := e, off := p + 1 } dst, s.tape⟩ =
+          .ret st [.bytes (dst ++ renderJ (erase (.arr p e (filterVs q 0 es)))), .bool false] ∧ st.tape = s.tape) :=
+  SJ.SourceLevelF.C14_source_delete_then_read_arr pj p e es q hok hsmall N hN fuel hf
+
+open SJ.Generated SJ.GoSem SJ.GoIter SJ.GoSet SJ.Layout SJ.SourceLevelF SJ.Tables SJ.WalkLayout SJ.Lookup SJ.DeleteDoc SJ.MarshalExact SJ.RenderParse SJ.Numeric SJ.EditHistory SJ.GoObject SJ.GoMarshal SJ.GoArrMarshal SJ.GoDelete SJ.SourceLevelB SJ.SourceLevelE in
+/-- **`Object.DeleteElems`, then read back, source level** (object half of `C14_delete_then_read`).  On a tape holding the
+    located object `.obj p e ms`, for a callback `pred n key` (its answer to the `n`-th call, made with `key`; the interpreter's
+    callback answers from the queue `cbAnswers pred ks ms`) and a key filter `ks`: running the regenerated
+    `goObject_DeleteElems` on the object's view returns `nil`, and on the tape it leaves (`ms'` = the survivors,
+    `filterMs pred ks 0 ms`):
+    * the tape holds the object `ms'`, members at their old positions;
+    * **NextElementBytes-based walk** (needs `TightMs ms`, as the property does: `NextElementBytes` does not skip NOPs between
+      a key and its value): calling the regenerated `Object.NextElement` again and again on the object's view lists exactly
+      the survivors — key bytes, type, and a cursor restricted to the value and standing on it — in order
+      (`C12_source_nextElement_walk` on the new tape; the property's `owalkObj` is this walk in the hand model);
+    * **ForEach**: the regenerated `Object.ForEach` without a filter calls back exactly the survivors, in order, each with
+      its own key and an iterator standing on its own value (`C12_source_forEach` on the new tape);
+    * **text**: given `FloatsOk`, from any iterator standing on the object whose view lies inside the tape, the regenerated
+      `Iter.MarshalJSONBuffer` returns `dst ++` the canonical text of the object of survivors, and `nil`.
+    Route: `C14_object_delete` ∘ `DeleteElems` tie (`C14_source_object_delete_pred`, the object as the whole document), then
+    the three reader compositions on the resulting tape.
+    Remaining: `BufOK pj`, `len(tape) < 2^56`, `N ≥ e − (p+1)` queued answers, the loop budgets. -/
+theorem C14_source_delete_then_read_obj (pj : PJ) (p e : Nat) (ms : LMems) (pred : Nat → Bytes → Bool) (ks : List Bytes)
+    (hok : Ok pj (.obj p e ms)) (hsmall : pj.tape.size < 2^56) (hb : BufOK pj) (N : Nat) (hN : e - (p + 1) ≤ N)
+    (fuel : Nat) (hf : 2 * e + 7 ≤ fuel) :
+    ∃ s, runFun goFuns goObject_DeleteElems fuel
+        ⟨objStore pj { lim := e, off := p + 1 } ks
+          [("fn==nil", .bool false), ("fn.results", .bools (answers N (cbAnswers pred ks ms))), ("fn.log", .ints [])],
+          pj.tape⟩ = .ret s [.bool false] ∧
+      s.tape.size = pj.tape.size ∧
+      Ok { tape := s.tape, strings := pj.strings, msg := pj.msg } (.obj p e (filterMs pred ks 0 ms)) ∧
+      (TightMs ms → ∀ (d0 : Iter) (F n : Nat), e - p + 1 ≤ F → memCount (filterMs pred ks 0 ms) < n →
+        srcElements F s.tape n
+            (neEnv { lim := e, off := p + 1 } d0 { tape := s.tape, strings := pj.strings, msg := pj.msg }) =
+          some ((membersOf (filterMs pred ks 0 ms)).map fun kv =>
+            (kv.1, tagToTypeSpec (tagOfL kv.2),
+              some (elemIter { tape := s.tape, strings := pj.strings, msg := pj.msg } kv.2)))) ∧
+      (∀ F, 2 * e + 7 ≤ F →
+        ∃ s', runFun goFuns goObject_ForEach F
+            ⟨objStore { tape := s.tape, strings := pj.strings, msg := pj.msg } { lim := e, off := p + 1 } []
+              [("fn.log", .ints [])], s.tape⟩ = .ret s' [.bool false] ∧
+          s'.tape = s.tape ∧
+          GoDelete.logOf s'.env = encNIs ((membersWithKeys [] (filterMs pred ks 0 ms)).map
+            (cbOf { tape := s.tape, strings := pj.strings, msg := pj.msg } e)).toArray) ∧
+      (FloatsOk (.obj p e ms) → ∀ (j : Iter) (dst : Bytes) (F : Nat),
+        OnNode { tape := s.tape, strings := pj.strings, msg := pj.msg } (.obj p e (filterMs pred ks 0 ms)) j →
+        j.lim ≤ s.tape.size → 2 * s.tape.size + j.lim + 25 ≤ F →
+        ∃ st, runFun goFuns goIter_MarshalJSONBuffer F
+            ⟨initEnv { tape := s.tape, strings := pj.strings, msg := pj.msg } j dst, s.tape⟩ =
+          .ret st [.bytes (dst ++ renderJ (erase (.obj p e (filterMs pred ks 0 ms)))), .bool false] ∧
+          st.tape = s.tape) :=
+  SJ.SourceLevelF.C14_source_delete_then_read_obj pj p e ms pred ks hok hsmall hb N hN fuel hf
+
+open SJ.Generated SJ.GoSem SJ.GoIter SJ.GoSet SJ.Layout SJ.SourceLevelF SJ.Tables SJ.WalkLayout SJ.Lookup SJ.DeleteDoc SJ.MarshalExact SJ.RenderParse SJ.Numeric SJ.EditHistory SJ.GoObject SJ.GoMarshal SJ.GoArrMarshal SJ.GoDelete SJ.SourceLevelB SJ.SourceLevelE in
+/-- **All source-side readers agree after a deletion** (`C14_delete_then_read`, both halves). -/
+theorem C14_source_delete_then_read (pj : PJ) (p e : Nat) :
+    (∀ (es : LVals) (q : Nat → Bool) (N fuel : Nat), Ok pj (.arr p e es) → pj.tape.size < 2^56 → e - (p + 1) ≤ N →
+      2 * e + 7 ≤ fuel →
+      ∃ s, runFun goFuns goArray_DeleteElems fuel
+          ⟨arrStore pj { lim := e, off := p + 1 } [("fn.results", .bools (answers N q)), ("fn.log", .ints [])],
+            pj.tape⟩ = .ret s [] ∧
+        Ok { tape := s.tape, strings := pj.strings, msg := pj.msg } (.arr p e (filterVs q 0 es)) ∧
+        ∀ F, 2 * e + 6 ≤ F →
+          ∃ s' its, runFun goFuns goArray_ForEach F
+              ⟨arrStore { tape := s.tape, strings := pj.strings, msg := pj.msg } { lim := e, off := p + 1 }
+                [("fn.log", .ints [])], s.tape⟩ = .ret s' [] ∧
+            s'.tape = s.tape ∧ GoDelete.logOf s'.env = GoDelete.encIters its ∧ its.size = lenVs (filterVs q 0 es) ∧
+            Stands { tape := s.tape, strings := pj.strings, msg := pj.msg } e (filterVs q 0 es) its.toList) ∧
+    (∀ (ms : LMems) (pred : Nat → Bytes → Bool) (ks : List Bytes) (N fuel : Nat), Ok pj (.obj p e ms) → TightMs ms →
+      pj.tape.size < 2^56 → BufOK pj → e - (p + 1) ≤ N → 2 * e + 7 ≤ fuel →
+      ∃ s, runFun goFuns goObject_DeleteElems fuel
+          ⟨objStore pj { lim := e, off := p + 1 } ks
+            [("fn==nil", .bool false), ("fn.results", .bools (answers N (cbAnswers pred ks ms))), ("fn.log", .ints [])],
+            pj.tape⟩ = .ret s [.bool false] ∧
+        Ok { tape := s.tape, strings := pj.strings, msg := pj.msg } (.obj p e (filterMs pred ks 0 ms)) ∧
+        ∀ (d0 : Iter) (F n : Nat), e - p + 1 ≤ F → memCount (filterMs pred ks 0 ms) < n →
+          srcElements F s.tape n
+              (neEnv { lim := e, off := p + 1 } d0 { tape := s.tape, strings := pj.strings, msg := pj.msg }) =
+            some ((membersOf (filterMs pred ks 0 ms)).map fun kv =>
+              (kv.1, tagToTypeSpec (tagOfL kv.2),
+                some (elemIter { tape := s.tape, strings := pj.strings, msg := pj.msg } kv.2)))) :=
+  SJ.SourceLevelF.C14_source_delete_then_read pj p e
 
 end SJ.Properties.C14
